@@ -831,7 +831,7 @@ def plan(tier):
             Enum("launch-options", lambda: enum_options("quick"), shards=16),
             Hyp("probe-random", _probe, examples=400, shards=4),
             Hyp("static-random", lambda: _static(8), examples=2000, shards=4),
-            Hyp("histories", lambda: _topo(5, 8), examples=1440, shards=16)]
+            Hyp("histories", lambda: _topo(5, 8), examples=1200, shards=16)]
   return [Enum("static-graphs", lambda: enum_static("thorough"), shards=16),
           Enum("probe-boundaries", lambda: enum_probe("thorough"), shards=8),
           Enum("converge-small-graphs", lambda: enum_topo("thorough"), shards=16),
